@@ -74,62 +74,58 @@ def flatten_family(t, cfg, ctx, obj):
 
 
 def roundtrip(t, cfg, ctx, obj):
+    """C01: one composite case per (tree, cfg): flatten, three rebuild routes, re-flatten, replacement leaves, wrong counts"""
     kw = dict(none_is_leaf=cfg['nil'], namespace=cfg['ns'])
     pred = U.make_pred(cfg, ctx)
-    cases = []
-    with U.modes(cfg['modes']):
-        try:
-            leaves, spec = optree.tree_flatten(obj, pred, **kw)
-        except Exception:  # noqa: BLE001
-            return cases
-    pspec = U.project_spec(spec)
-    ids = U.leaf_ids(leaves, ctx)
-    # (1) rebuild; both spellings;  modes are NOT active here on purpose: unflatten must not depend on them
+
+    def flat(o):
+        with U.modes(cfg['modes']):
+            try:
+                leaves, spec = optree.tree_flatten(o, pred, **kw)
+                return leaves, spec, {'err': '', 'leaves': U.leaf_ids(leaves, ctx), 'spec': U.project_spec(spec)}
+            except Exception as ex:  # noqa: BLE001
+                return None, None, {'err': U.exc_class(ex)}
+
+    leaves, spec, f = flat(obj)
+    case = {'op': 'roundtrip', 't': t, 'cfg': cfg, 'flat': f, 'rebuilt': [], 'bad': []}
+    if spec is None:
+        return [case]
+
+    def tmap():
+        with U.modes(cfg['modes']):
+            return optree.tree_map(lambda x: x, obj, is_leaf=pred, **kw)
+    first = None
+    # modes are NOT active while unflattening, on purpose: a treespec must not depend on them
     for name, fn in (('tree_unflatten', lambda: optree.tree_unflatten(spec, leaves)),
                      ('PyTreeSpec.unflatten', lambda: spec.unflatten(iter(leaves))),
-                     ('tree_map(identity)', None)):
-        if fn is None:
-            def fn():
-                with U.modes(cfg['modes']):
-                    return optree.tree_map(lambda x: x, obj, is_leaf=pred, **kw)
+                     ('tree_map(identity)', tmap)):
         try:
             rebuilt = fn()
-            out = {'err': '', 'tree': U.project(rebuilt, ctx)}
+            case['rebuilt'].append({'via': name, 'err': '', 'tree': U.project(rebuilt, ctx)})
+            if first is None:
+                first = rebuilt
         except Exception as ex:  # noqa: BLE001
-            rebuilt, out = None, {'err': U.exc_class(ex)}
-        cases.append({'op': 'unflatten', 'via': name, 'spec': pspec, 'leaves': ids, 'pool': [t], 'out': out, 'cfg': cfg})
-        if rebuilt is not None and name == 'tree_unflatten':
-            # (2) flatten the rebuilt tree again: identical leaves, equal treespec
-            ctx2 = ctx
-            c2 = flatten_family(U.project(rebuilt, ctx2), cfg, ctx2, rebuilt)
-            c2['outs'] = c2['outs'][:1]
-            c2['again'] = {'leaves': ids, 'spec': pspec}
-            cases.append(c2)
-    # (3) replacement leaves (fresh opaque objects, reversed order), wrong counts
+            case['rebuilt'].append({'via': name, 'err': U.exc_class(ex)})
+    if first is not None:
+        case['again'] = flat(first)[2]
     n = len(leaves)
     rep = ctx.new_leaves(n)[::-1]
-    rid = U.leaf_ids(rep, ctx)
+    r = {'ids': U.leaf_ids(rep, ctx)}
     try:
         t2 = optree.tree_unflatten(spec, rep)
-        out = {'err': '', 'tree': U.project(t2, ctx)}
+        r.update(err='', tree=U.project(t2, ctx), again=flat(t2)[2])
     except Exception as ex:  # noqa: BLE001
-        t2, out = None, {'err': U.exc_class(ex)}
-    cases.append({'op': 'unflatten', 'via': 'replacement', 'spec': pspec, 'leaves': rid, 'pool': [], 'out': out, 'cfg': cfg})
-    if t2 is not None:
-        c3 = flatten_family(U.project(t2, ctx), cfg, ctx, t2)
-        c3['outs'] = c3['outs'][:1]
-        c3['again'] = {'leaves': rid, 'spec': pspec}
-        cases.append(c3)
+        r.update(err=U.exc_class(ex))
+    case['rep'] = r
     for bad, tag in ((rep + ctx.new_leaves(1), 'too-many'), (rep[1:], 'too-few')):
         if tag == 'too-few' and n == 0:
             continue
         try:
-            tb = optree.tree_unflatten(spec, bad)
-            out = {'err': '', 'tree': U.project(tb, ctx)}
+            optree.tree_unflatten(spec, bad)
+            case['bad'].append({'tag': tag, 'err': ''})
         except Exception as ex:  # noqa: BLE001
-            out = {'err': U.exc_class(ex)}
-        cases.append({'op': 'unflatten', 'via': tag, 'spec': pspec, 'leaves': U.leaf_ids(bad, ctx), 'pool': [], 'out': out, 'cfg': cfg})
-    return cases
+            case['bad'].append({'tag': tag, 'err': U.exc_class(ex)})
+    return [case]
 
 
 def inspect_case(spec, cfg=None):
